@@ -189,7 +189,7 @@ faults(const struct cfg *c, int op, size_t off, size_t n)
         return;
     }
     for (size_t k = 0; k < naccess; k++)
-        for (int shrt = 0; shrt < 2; shrt++) {
+        for (int shrt = 0; shrt < 3; shrt++) {
             prepare(c, &st, &aux);
             dst = vh_arena(c->size);
             ps_fault_at = (long)k;
@@ -207,10 +207,9 @@ faults(const struct cfg *c, int op, size_t off, size_t n)
             if (a->done == a->len)
                 continue; /* a zero-length access cannot fail visibly */
             char key[128];
-            snprintf(key, sizeof key, "%s fault=%s-%s", key0, ps_fault_was_write ? "write" : "read",
-                     shrt ? "short" : "fail");
-            vh_countf("fault injected: %s %s %s", opname[op], ps_fault_was_write ? "write" : "read",
-                      shrt ? "short" : "fails");
+            static const char *const mode[] = { "fail", "short", "minus-one" }, *const modec[] = { "fails", "short", "reports (size_t)-1" };
+            snprintf(key, sizeof key, "%s fault=%s-%s", key0, ps_fault_was_write ? "write" : "read", mode[shrt]);
+            vh_countf("fault injected: %s %s %s", opname[op], ps_fault_was_write ? "write" : "read", modec[shrt]);
             if (rc != PERSISTENT_ACCESS_IO_ERROR)
                 vh_fail("fault-not-reported", key,
                         "size=%zu place=%u aux=%zu (off=%zu,n=%zu): access %zu of %zu (addr=%u len=%zu moved %zu): rc=%d",
@@ -350,6 +349,10 @@ harness_run(void)
                                  "fault injected: store_part write fails", "fault injected: reset write short",
                                  "fault injected: validate read fails", "fault injected: validate read short",
                                  "fault injected: fetch read short", "fault injected: fetch_part read fails",
+                                 "fault injected: validate read reports (size_t)-1",
+                                 "fault injected: store_part read reports (size_t)-1",
+                                 "fault injected: store write reports (size_t)-1",
+                                 "fault injected: reset write reports (size_t)-1",
                                  "placement with the last octet at the top of the address space" };
     for (size_t i = 0; i < sizeof req / sizeof req[0]; i++)
         vh_require(req[i]);
